@@ -42,6 +42,7 @@ type Options struct {
 	Dir               string // directory for on-disk back-ends
 	ZoneDB            ethdb.Database // if set, used as the zone database (already containing a chain, or empty)
 	WrapZoneDB        func(ethdb.Database) ethdb.Database // applied to the zone database (also on RestartZone)
+	WrapDB            func(ctx int, db ethdb.Database) ethdb.Database // applied to the database of every level (also on RestartAll / RestartZone), after WrapZoneDB
 	GenesisDifficulty int64
 	QuaiCoinbase      common.Address
 	QiCoinbase        common.Address
@@ -53,6 +54,7 @@ type Options struct {
 	GasCeil           uint64
 	Quiet             bool
 	ChainID           *big.Int
+	NoSnapshot        bool // state snapshots off: every state read goes through the trie (a node right after a restart / state sync)
 }
 
 type Net struct {
@@ -142,6 +144,9 @@ func (n *Net) openDB(ctx int) (ethdb.Database, error) {
 	if ctx == Zone && o.WrapZoneDB != nil {
 		db = o.WrapZoneDB(db)
 	}
+	if o.WrapDB != nil {
+		db = o.WrapDB(ctx, db)
+	}
 	return db, nil
 }
 
@@ -187,7 +192,11 @@ func (n *Net) coreOn(ctx int, loc common.Location, db ethdb.Database) (*core.Cor
 	}
 	txc := core.DefaultTxPoolConfig
 	txc.Journal = ""
-	c, err := core.NewCore(db, minerCfg, pow, &txc, nil, &cc, []common.Location{ZoneLoc}, 0, nil, eng, nil, vm.Config{}, g, log.Global)
+	var cache *core.CacheConfig
+	if o.NoSnapshot {
+		cache = &core.CacheConfig{TrieCleanLimit: 256, TrieDirtyLimit: 256, TrieTimeLimit: 5 * time.Minute, SnapshotLimit: 0}
+	}
+	c, err := core.NewCore(db, minerCfg, pow, &txc, nil, &cc, []common.Location{ZoneLoc}, 0, nil, eng, cache, vm.Config{}, g, log.Global)
 	if err != nil {
 		return nil, fmt.Errorf("NewCore: %w", err)
 	}
@@ -456,6 +465,9 @@ func (n *Net) RestartZone(db ethdb.Database) error {
 	if n.Opt.WrapZoneDB != nil {
 		db = n.Opt.WrapZoneDB(db)
 	}
+	if n.Opt.WrapDB != nil {
+		db = n.Opt.WrapDB(Zone, db)
+	}
 	n.DBs[Zone] = db
 	var c *core.Core
 	var err error
@@ -471,6 +483,52 @@ func (n *Net) RestartZone(db ethdb.Database) error {
 		return err
 	}
 	n.Cores[Zone] = c
+	n.wire()
+	return nil
+}
+
+// RestartAll simulates a restart of the whole node process (prime, region and zone run in ONE process on
+// three databases): all three cores are abandoned without running any shutdown code, new cores are
+// constructed on the given database images (prime first, as the node does) and wired to each other.
+// On error the level that failed to open is named; the Net is then unusable until the next RestartAll.
+func (n *Net) RestartAll(dbs [3]ethdb.Database) error {
+	for _, old := range n.Cores {
+		if old != nil {
+			go func(c *core.Core) {
+				defer func() { recover() }()
+				c.Stop()
+			}(old)
+		}
+	}
+	var fresh [3]*core.Core
+	for ctx := Prime; ctx <= Zone; ctx++ {
+		db := dbs[ctx]
+		if ctx == Zone && n.Opt.WrapZoneDB != nil {
+			db = n.Opt.WrapZoneDB(db)
+		}
+		if n.Opt.WrapDB != nil {
+			db = n.Opt.WrapDB(ctx, db)
+		}
+		n.DBs[ctx] = db
+		var c *core.Core
+		var err error
+		func() {
+			defer func() {
+				if r := recover(); r != nil {
+					err = fmt.Errorf("panic while constructing the core: %v", r)
+				}
+			}()
+			c, err = n.coreOn(ctx, locs[ctx], db)
+		}()
+		if err != nil {
+			return fmt.Errorf("level %d: %w", ctx, err)
+		}
+		fresh[ctx] = c
+	}
+	n.Cores = fresh
+	n.mu.Lock()
+	n.mailbox = map[int]*types.WorkObject{}
+	n.mu.Unlock()
 	n.wire()
 	return nil
 }
